@@ -1,5 +1,7 @@
 """C18: the dynamic completion engine never fails and only offers valid continuations."""
+import ast
 import os
+import re
 
 from .. import core, gen_cmd
 from ..core import hexs, unhex, sx_parse
@@ -831,5 +833,36 @@ def streams(tier, rng):
     ]
 
 
+_GAP = re.compile(r"^visible option (b'.*'|b\".*\") has a spelling extending (b'.*'|b\".*\") but is not represented$", re.S)
+
+
 def classify_known(stream, case, impl, failure):
-    return None
+    """C18-alias-without-long: the completeness complaint concerns an option WITHOUT a long name whose only
+    spellings extending the word are `--<visible alias>` (theorem C18_complete_options_alias_refuted)"""
+    if stream != "accept" or not isinstance(failure, str):
+        return None
+    m = _GAP.match(failure)
+    if not m:
+        return None
+    try:
+        aid = ast.literal_eval(m.group(1))
+        word = ast.literal_eval(m.group(2))
+        _, extra = split_result(impl)
+        info = {it[0]: it[1:] for it in sx_parse("(" + extra + ")")}
+        _, argv, index = decode_case(case)
+        root = node_of(info["tree"][0])
+        start = 0 if "no_binary_name" in root["flags"] else 1
+        level, _ = scan_prefix(root, argv[start:index])
+    except Exception:
+        return None
+    own = [a for a in level["args"] if a["id"] == aid]
+    if len(own) != 1:
+        return None
+    a = own[0]
+    if a.get("l") or not a.get("va"):
+        return None                       # it has a long name (or no visible alias): not this family
+    if a.get("s") and word in (b"", b"-"):
+        return None                       # a short spelling extends the word: the option must be represented
+    if not any((b"--" + x).startswith(word) for x in a["va"]):
+        return None
+    return "C18-alias-without-long"
